@@ -76,7 +76,7 @@ typedef struct {
 	char got[256];  /* rendered value for successful gets */
 } mres_t;
 
-static char *dump(json_t *j) { return json_dumps(j, JSON_SORT_KEYS | JSON_COMPACT | JSON_ENCODE_ANY); }
+static char *dump(json_t *j) { return tok_jdump(j, JSON_SORT_KEYS | JSON_COMPACT | JSON_ENCODE_ANY); }
 
 /* the reference model: state is a json object owned by the caller */
 static void model_apply(json_t *st, const mop_t *op, mres_t *r)
